@@ -211,3 +211,141 @@ class FailCommand:
 
     def exc_KeyError_unknown_target(self, identifier, old):
         return identifier != '' and identifier not in old.self.supvisors.mapper.instances
+
+
+# ------------------------------------------------------------------------------------------ clause 4: lost instances
+def groups_not_flight(j):
+    """shape validity (same as c03.groups_are_not_the_flight_list): current_jobs is the list created by __init__, planned
+    groups are other list objects"""
+    return forall(int, lambda s: implies(s in j.planned_jobs, j.planned_jobs[s] is not j.current_jobs))
+
+
+# duplicate_free(l) (engine predicate) is used as shape validity of an in-flight list: a command object is created once
+# (store_application / stop_process / start_process), sits in one planned group and is appended once by
+# ApplicationJobs.next when its group is popped
+
+
+def pending_process(j_old, p):
+    """a command for process p was in flight (requested, not yet completed) on entry"""
+    return exists(j_old.current_jobs, lambda c: c.process is p)
+
+
+def planned_process(j, p):
+    """a command for process p is still to be triggered by the job j"""
+    return exists(int, lambda s: s in j.planned_jobs and exists(j.planned_jobs[s], lambda c: c.process is p))
+
+
+def wipes_plan(p):
+    """C03: 'After a required process fails to start ... ABORT and STOP request nothing further for that application'"""
+    return p.rules.required and p.rules.starting_failure_strategy in (StartingFailureStrategies.ABORT,
+                                                                        StartingFailureStrategies.STOP)
+
+
+def asks_stop(p):
+    """C03: '(STOP then stops it once in-flight starts end)'"""
+    return p.rules.required and p.rules.starting_failure_strategy == StartingFailureStrategies.STOP
+
+
+@contract('commander:ApplicationJobs.on_instances_invalidation', props=['C10', 'C03', 'C06', 'C16'])
+class JobsOnInstancesInvalidation:
+    """C10: 'if ... the target instance is lost, the job is abandoned ... and the sequence moves on': every command in
+    flight whose target is an invalidated identifier leaves the in-flight list - all of them -, the others stay.
+    C03: 'has been given up (failed, timed out, host lost) ... After a required process fails to start,
+    starting_failure_strategy is honoured: ABORT and STOP request nothing further for that application (STOP then stops
+    it once in-flight starts end), CONTINUE proceeds': for a start job every dropped command is a starting failure,
+    whatever the state of its process.
+    C06: 'a process that already has a start or stop job planned is left to that job': the process of every command
+    still planned on exit (a plan wiped by ABORT / STOP is no job) and of every command dropped here leaves
+    failed_processes; a process only leaves failed_processes if this job had a command for it in flight or has one
+    planned; nothing enters.  The remaining case - command in flight on a SURVIVING instance - is decided in
+    contracts/c06_pending.py (refuted: finding C06-pending-on-survivor).
+    C16: no exception escapes (raises = ())."""
+    variants = ['ApplicationStartJobs', 'ApplicationStopJobs']
+    raises = ()
+
+    def modifies(self, invalidated_identifiers, failed_processes):
+        return [contents(self.current_jobs), contents(failed_processes), field(self, 'planned_jobs'),
+                field(self, 'stop_request')]
+
+    def pre_shape(self):
+        return groups_not_flight(self) and duplicate_free(self.current_jobs)
+
+    def pre_lost_instances_list(self, invalidated_identifiers):
+        """call sites (statemachine.py _common_next): the list of identifiers built by Context.invalidate_failed"""
+        return invalidated_identifiers is not self.current_jobs
+
+    # ---- C10
+    def post_lost_targets_leave(self, invalidated_identifiers):
+        return forall(self.current_jobs, lambda c: c.identifier not in invalidated_identifiers)
+
+    def post_the_others_stay(self, invalidated_identifiers, old):
+        return forall(old.self.current_jobs, lambda c: implies(c.identifier not in invalidated_identifiers,
+                                                               c in self.current_jobs))
+
+    def post_nothing_enters(self, old):
+        return (self.current_jobs is old.self.current_jobs and duplicate_free(self.current_jobs)
+                and forall(self.current_jobs, lambda c: c in old.self.current_jobs))
+
+    # ---- C03
+    def post_starting_failure_strategy(self, invalidated_identifiers, old):
+        lost = lambda c: c.identifier in invalidated_identifiers
+        wiped = isinstance(self, ApplicationStartJobs) and exists(old.self.current_jobs,
+                                                                 lambda c: lost(c) and wipes_plan(c.process))
+        return ite(wiped, len(self.planned_jobs) == 0, self.planned_jobs is old.self.planned_jobs)
+
+    def post_stop_request(self, invalidated_identifiers, old):
+        lost = lambda c: c.identifier in invalidated_identifiers
+        return implies(isinstance(self, ApplicationStartJobs),
+                       narrow(self, ApplicationStartJobs).stop_request == (
+                           narrow(old.self, ApplicationStartJobs).stop_request
+                           or exists(old.self.current_jobs, lambda c: lost(c) and asks_stop(c.process))))
+
+    # ---- C06
+    def post_planned_is_left_to_its_job(self, failed_processes, old):
+        return forall(old.failed_processes, lambda p: implies(planned_process(self, p), p not in failed_processes))
+
+    def post_dropped_is_a_starting_failure(self, invalidated_identifiers, failed_processes, old):
+        """code comment: 'remove the process from failed_processes as this is a starting failure, not a running failure'"""
+        return forall(old.self.current_jobs, lambda c: implies(c.identifier in invalidated_identifiers,
+                                                               c.process not in failed_processes))
+
+    def post_nothing_else_is_removed(self, failed_processes, old):
+        return (forall(old.failed_processes, lambda p: implies(p not in failed_processes,
+                                                               pending_process(old.self, p) or planned_process(self, p)))
+                and forall(failed_processes, lambda p: p in old.failed_processes))
+
+    # ---- loop 0: the in-flight commands (a copy is iterated)
+    def loop0_modifies(self, invalidated_identifiers, failed_processes):
+        return [contents(self.current_jobs), contents(failed_processes), field(self, 'planned_jobs'),
+                field(self, 'stop_request')]
+
+    def loop0_inv(self, k, seq, invalidated_identifiers, failed_processes, loop_old):
+        lost = lambda c: c.identifier in invalidated_identifiers
+        done = lambda f: exists(int, lambda j: 0 <= j and j < k and f(seq[j]))
+        return (self.current_jobs is loop_old.self.current_jobs and seq == loop_old(self.current_jobs)
+                and groups_not_flight(self) and duplicate_free(seq) and duplicate_free(self.current_jobs)
+                and forall(self.current_jobs, lambda c: c in seq)
+                and forall(int, lambda j: implies(0 <= j and j < len(seq) and seq[j] not in self.current_jobs,
+                                                  j < k and lost(seq[j])))
+                and forall(int, lambda j: implies(0 <= j and j < k and lost(seq[j]), seq[j] not in self.current_jobs))
+                and ite(isinstance(self, ApplicationStartJobs) and done(lambda c: lost(c) and wipes_plan(c.process)),
+                        len(self.planned_jobs) == 0, self.planned_jobs is loop_old.self.planned_jobs)
+                and implies(isinstance(self, ApplicationStartJobs),
+                            narrow(self, ApplicationStartJobs).stop_request == (
+                                narrow(loop_old.self, ApplicationStartJobs).stop_request
+                                or done(lambda c: lost(c) and asks_stop(c.process))))
+                and forall(failed_processes, lambda p: p in loop_old.failed_processes)
+                and forall(loop_old.failed_processes, lambda p: implies(
+                    p not in failed_processes, done(lambda c: lost(c) and c.process is p)))
+                and forall(int, lambda j: implies(0 <= j and j < k and lost(seq[j]),
+                                                  seq[j].process not in failed_processes)))
+
+    # ---- loop 1: the planned commands (sum(planned_jobs.values(), []): a fresh list of the members of the groups)
+    def loop1_modifies(self, failed_processes):
+        return [contents(failed_processes)]
+
+    def loop1_inv(self, k, seq, failed_processes, loop_old):
+        return (forall(failed_processes, lambda p: p in loop_old.failed_processes)
+                and forall(loop_old.failed_processes, lambda p: implies(
+                    p not in failed_processes, exists(int, lambda j: 0 <= j and j < k and seq[j].process is p)))
+                and forall(int, lambda j: implies(0 <= j and j < k, seq[j].process not in failed_processes)))
